@@ -1566,7 +1566,9 @@ class AgProtocol(utils.EventEmitter):
 
     def _on_bia(self, *args) -> None:
         for enabled, state in zip(args, self.ag_indicators):
-            state.enabled = bool(int(enabled))
+            # An omitted field leaves the indicator unchanged.
+            if enabled:
+                state.enabled = bool(int(enabled))
         self.send_ok()
 
     def _on_bcc(self) -> None:
